@@ -49,8 +49,6 @@ def run_watcher(ctx, q):
     unavailable = [o for o in obs if o["probe"] == "unavailable"]
     if unavailable:
         raise Inconclusive("Watcher: the file watcher could not be started in this environment: " + unavailable[0]["detail"])
-    if not any(o["events"] for o in obs):
-        raise Inconclusive("Watcher: no callback was ever invoked (file notifications do not arrive in this environment)")
     ctx.reject_detail = {}
     rejected = ctx.r4_judge(["WatcherAbs", "Trace_Watcher"], "Trace_Watcher", obs, chunk=2000, timeout_s=1200)
     for o in obs:
